@@ -37,9 +37,15 @@ def card_case(draw, tier='quick'):
     wide = tier != 'quick' and draw(st.booleans())
     k, p, labels = draw(gen.elementary_params(kind, wide))
     sid = draw(st.sampled_from([1, 7, 42, 999]))
+    # optionally a second, unrelated surface card with the next number,
+    # written before or after the card under test (card order and numbering
+    # are free in MCNP)
+    crowd = draw(st.sampled_from([None, None, 'before', 'after']))
+    if crowd:
+        labels = list(labels) + ['crowded:' + crowd]
     return {'kind': k, 'params': p, 'sid': sid, 'labels': sorted(labels),
             'pseed': draw(st.integers(0, 2 ** 31 - 1)), 'gen': kind,
-            'tier': tier}
+            'tier': tier, 'crowd': crowd}
 
 
 def strategy(tier):
@@ -56,6 +62,23 @@ def build_deck(case):
     d = md.new_deck()
     sid = case['sid']
     d['surfaces'].append(md.surf(sid, case['kind'], case['params']))
+    crowd = case.get('crowd')
+    if crowd:
+        # a far-away sphere: cell 2 excludes it, cell 3 is its inside
+        other = md.surf(sid + 1, 's', [60.0, 60.0, 60.0, 1.0])
+        if crowd == 'before':
+            d['surfaces'].insert(0, other)
+        else:
+            d['surfaces'].append(other)
+        d['cells'].append(md.cell(1, 0, None, md.AND(md.S(-sid),
+                                                     md.S(sid + 1)),
+                                  imp={'n': 1}))
+        d['cells'].append(md.cell(2, 0, None, md.AND(md.S(sid),
+                                                     md.S(sid + 1)),
+                                  imp={'n': 1}))
+        d['cells'].append(md.cell(3, 0, None, md.S(-(sid + 1)),
+                                  imp={'n': 1}))
+        return d
     d['cells'].append(md.cell(1, 0, None, md.S(-sid), imp={'n': 1}))
     d['cells'].append(md.cell(2, 0, None, md.S(sid), imp={'n': 1}))
     return d
@@ -95,6 +118,9 @@ def check(case):
     in1 = cmp_.ev.in_volume(1) if 1 in t4.volus else np.zeros(len(P), bool)
     in2 = cmp_.ev.in_volume(2) if 2 in t4.volus else np.zeros(len(P), bool)
     neg = cmp_.loc.owner == 1
+    if case.get('crowd'):
+        # points inside the far-away extra sphere belong to cell 3
+        dec = dec & (cmp_.loc.owner != 3)
     tag = 'kind=%s' % case['gen']
     if 'one-sheet-cone' in case['labels']:
         tag += ',one-sheet'
